@@ -28,6 +28,13 @@ ASSUMPTIONS = ["numeric-looking string parameter values and names containing '-'
 
 WORK = os.path.join(os.path.dirname(os.path.dirname(os.path.dirname(os.path.abspath(__file__)))), ".work")
 TITLES = ["sc", "Number_of_pixels", "U11", "eps11", "foo", "omega"]
+# print precision documented in columnfile.py (FLOATS 4 decimals, LONGFLOATS 12, INTS 0, EXPONENTIALS 4-digit mantissa, anything
+# else %f), written down here independently of the library's FORMATS table
+DOCUMENTED = {"sc": "%.4f", "fc": "%.4f", "omega": "%.4f", "Number_of_pixels": "%.0f", "U11": "%.12f", "UBI23": "%.12f", "eps11": "%.4e",
+              "eps12_s": "%.4e", "sig11": "%.4e", "e11e11": "%.4e", "e22e22_s": "%.4e", "s33s33": "%.4e", "e11e22": "%.4e", "s23s12_s": "%.4e", "e12e12": "%.4e", "e13e12": "%.4e",
+              "foo": "%f", "t_x": "%f", "tth": "%.4f", "sum_intensity": "%.4f", "spot3d_id": "%.0f", "labels": "%.0f", "gx": "%.4f"}
+MORE_TITLES = [["e11e11", "e22e22_s", "s33s33", "e11e22", "s23s12_s", "e12e12", "e13e12"], ["fc", "UBI23", "eps12_s", "sig11"], ["tth", "sum_intensity", "gx", "t_x"],
+               ["spot3d_id", "labels", "e11e11", "sc"]]
 FLOATVALS = [0.0, -0.0, 1e-12, -1e-12, 1.2345678912345e-5, -1.2345678912345e-5, 0.5, -0.5, 123456.789012, -123456.789012,
              1e12, -1e12, 0.00005, 2.5]
 INTVALS = [0, 1, -1, 7, -12, 255, 65536, -65537, 2 ** 31, -(2 ** 31) - 1, 2 ** 53, -(2 ** 53), 3, 100000]
@@ -38,6 +45,7 @@ def plan(tier, seed):
     subs = [s for k in range(1, 7) for s in itertools.combinations(range(6), k)]
     for c in range(8):
         shards.append(("colfile", subs[c::8]))
+    shards.append(("colfile", [tuple(t) for t in MORE_TITLES]))
     shards.append(("hdf_overwrite",))
     for c in range(8):
         shards.append(("pars", c, 8))
@@ -88,7 +96,7 @@ def _run_colfile(desc):
     try:
         for sub in subs:
             for order in (1, -1):
-                titles = [TITLES[i] for i in sub][::order]
+                titles = ([TITLES[i] for i in sub] if not isinstance(sub[0], str) else list(sub))[::order]
                 case = {"kind": "colfile", "titles": titles}
                 cf, cols = build_cf(C, titles)
                 # ---------- text
@@ -101,7 +109,7 @@ def _run_colfile(desc):
                 if list(rd.titles) != titles:
                     sh.violation("text:titles-or-order", case, {"read": list(rd.titles)}); ok = False
                 for t in titles if ok else []:
-                    fmt = C.FORMATS.get(t, "%f")
+                    fmt = DOCUMENTED[t]
                     want = np.array([float(fmt % v) for v in cols[t]])
                     if not same(rd.getcolumn(t), want):
                         sh.violation("text:value-not-printed-precision", dict(case, title=t), {"read": rd.getcolumn(t), "expected": want}); ok = False
@@ -555,6 +563,25 @@ def _run_sparse(desc):
                 if fr.meta:
                     sh.nontrivial += 1
                 sh.outcomes.add(variant)
+        # frames with 32-bit indices (a dimension beyond 65535): the index type and the coordinates must come back
+        for shape_, rows_, cols_ in (((3, 100000), [0, 1, 2, 2], [5, 65535, 65536, 99999]), ((70000, 4), [0, 65535, 65536, 69999], [0, 1, 2, 3]),
+                                     ((3, 4), [0, 1, 2], [0, 1, 3])):
+            case = {"kind": "sparse", "mask": -1, "variant": "itype uint32 shape %s" % (shape_,)}
+            fr = sf.sparse_frame(np.array(rows_, np.uint32), np.array(cols_, np.uint32), shape_, itype=np.uint32,
+                                 pixels={"intensity": np.arange(len(rows_), dtype=np.float32) + 1})
+            f = os.path.join(wd, "s32.h5")
+            try:
+                with h5py.File(f, "w") as hf:
+                    fr.to_hdf_group(hf.create_group("frame"))
+                with h5py.File(f, "r") as hf:
+                    back = sf.from_hdf_group(hf["frame"])
+                if not (np.array_equal(back.row, fr.row) and np.array_equal(back.col, fr.col) and back.row.dtype == fr.row.dtype and back.col.dtype == fr.col.dtype
+                        and tuple(int(v) for v in back.shape) == tuple(shape_) and np.array_equal(back.pixels["intensity"], fr.pixels["intensity"])):
+                    sh.violation("sparse-hdf:round-trip", case, {"row_dtype": str(back.row.dtype), "rows": back.row, "cols": back.col})
+            except Exception as e:
+                sh.violation("sparse-hdf:raises", case, {"error": "%s: %s" % (type(e).__name__, str(e)[:200])})
+            sh.evaluations += 1
+            sh.nontrivial += 1
         sh.sample(case, limit=1)
     finally:
         shutil.rmtree(wd, ignore_errors=True)
@@ -569,8 +596,12 @@ def run_shard(desc):
 def replay(case):
     kind = case["kind"]
     if kind == "colfile":
-        sub = tuple(TITLES.index(t) for t in case["titles"])
-        r = _run_colfile(("colfile", [tuple(sorted(sub))]))
+        if all(t in TITLES for t in case["titles"]):
+            sub = tuple(TITLES.index(t) for t in case["titles"])
+            r = _run_colfile(("colfile", [tuple(sorted(sub))]))
+        else:
+            r = _run_colfile(("colfile", [tuple(t) for t in MORE_TITLES]))
+            r.violations = [v for v in r.violations if sorted(v["case"]["titles"]) == sorted(case["titles"])]
     elif kind == "hdf_overwrite":
         r = _run_hdf_overwrite(("hdf_overwrite",))
     elif kind == "pars":
